@@ -68,7 +68,7 @@ const PATTERN_KINDS: &[&str] = &[
     "host_path",
 ];
 /// kinds whose pattern matches every URL built by `url_for_kind` (used by the oracle)
-const ORACLE_KINDS: &[&str] = &["star", "host_caret", "host", "http", "https", "ws", "httpstar", "plain", "regex", "host_path"];
+const ORACLE_KINDS: &[&str] = &["star", "host_caret", "host_caret_pipe", "host", "host_pipe", "http", "https", "ws", "httpstar", "plain", "regex", "host_path"];
 
 fn pattern_of(kind: &str, host: &str) -> (String, Shape) {
     let mut sh = Shape { exception: false, hostname_anchor: false, right_anchor: false, end_url_anchor: false, complete_regex: false, scheme: Scheme::None };
@@ -126,8 +126,13 @@ fn pattern_of(kind: &str, host: &str) -> (String, Shape) {
 }
 
 /// A URL that the pattern of `kind` (built on `host`) matches, for any scheme.
-fn url_for_kind(scheme: &str, host: &str) -> String {
-    format!("{}://{}/ads1", scheme, host)
+fn url_for_kind(kind: &str, scheme: &str, host: &str) -> String {
+    match kind {
+        // the URL must end where the pattern does
+        "host_caret_pipe" => format!("{}://{}/", scheme, host),
+        "host_pipe" => format!("{}://{}", scheme, host),
+        _ => format!("{}://{}/ads1", scheme, host),
+    }
 }
 
 // ------------------------------------------------------------------------------------------------
@@ -635,7 +640,7 @@ fn oracle_case(d: &Value, verbose: bool) -> Option<(Option<&'static str>, String
     let (pat, mut sh) = pattern_of(kind, host);
     sh.exception = exception;
     let line = rule_line(exception, &pat, &opts);
-    let url = url_for_kind(scheme, host);
+    let url = url_for_kind(kind, scheme, host);
     let req = if mode_new {
         let src = if source_host.is_empty() { String::new() } else { format!("https://{}/page", source_host) };
         match Request::new(&url, &src, raw_type) {
@@ -795,7 +800,7 @@ fn main() {
                 }
                 Ok(f) => {
                     let scheme = r.pick(&["http", "https", "https", "ws", "wss", ""]);
-                    let url = if scheme.is_empty() { format!("{}/ads1", host) } else { url_for_kind(scheme, host) };
+                    let url = if scheme.is_empty() { format!("{}/ads1", host) } else { url_for_kind("plain", scheme, host) };
                     let raw_type = r.pick(RAW_TYPES);
                     let third = r.chance(1, 2);
                     let req = Request::preparsed(&url, host, source_host, raw_type, third);
